@@ -22,7 +22,8 @@ impl DateTime {
             text.parse::<f64>()
                 .invalid_err("Failed to parse inner text of XML tag 'dateTimeValue' as double")?
         } else {
-            return Ok(None);
+            // An empty float element stands for the value zero
+            0.0
         };
 
         let atomic_reference_node = node.children().find(|n| {
